@@ -28,6 +28,9 @@ func main() {
 	list := flag.Bool("list", false, "list implemented properties")
 	tags := flag.String("tags", "", "extra build tags")
 	dump := flag.String("dump", "", "debug: print the SSA of repository functions whose key contains this text")
+	patch := flag.String("patch", "", "witness mode: analyse the repository with this unified diff applied in memory (no files are written)")
+	goarch := flag.String("goarch", "", "load for this GOARCH")
+	cha := flag.Bool("cha", false, "use the CHA call graph instead of VTA (audit)")
 	flag.Parse()
 
 	if *verif == "" {
@@ -86,7 +89,7 @@ func main() {
 		fmt.Printf("unknown or unclaimed property %q\n", *prop)
 		os.Exit(2)
 	}
-	os.Exit(run(*prop, *tier, *repo, *verif, *tags, seed, rule))
+	os.Exit(run(*prop, *tier, *repo, *verif, *tags, seed, rule, *patch, *goarch, *cha))
 }
 
 func isFlagSet(name string) bool {
@@ -99,7 +102,8 @@ func isFlagSet(name string) bool {
 	return set
 }
 
-func run(prop, tier, repo, verif, tags string, seed int, rule rules.Rule) (code int) {
+func run(prop, tier, repo, verif, tags string, seed int, rule rules.Rule, patch, goarch string, cha bool) (code int) {
+	variant := patch != "" || goarch != "" || tags != "" || cha
 	start := time.Now()
 	res := report.New(prop)
 	work := filepath.Join(verif, ".work")
@@ -115,15 +119,37 @@ func run(prop, tier, repo, verif, tags string, seed int, rule rules.Rule) (code 
 			code = failClosed(res, verif, tier, seed, start, findings, fmt.Sprintf("analysis panic: %v", r))
 		}
 	}()
-	p, err := load.Load(load.Options{RepoDir: repo, WorkDir: work, StubDir: filepath.Join(verif, "checker", "stub", "gosensors"), Tags: tags})
+	var overlay map[string][]byte
+	if patch != "" {
+		overlay, err = load.OverlayFromPatch(repo, patch)
+		if err != nil {
+			fmt.Println("WITNESS-RESULT status=patch-does-not-apply", err)
+			return 3
+		}
+	}
+	p, err := load.Load(load.Options{RepoDir: repo, WorkDir: work, StubDir: filepath.Join(verif, "checker", "stub", "gosensors"), Tags: tags, GOARCH: goarch, Overlay: overlay})
 	if err != nil {
 		fmt.Println("load failed (fail closed):", err)
+		if variant {
+			fmt.Println("WITNESS-RESULT status=load-failed")
+			return 4
+		}
 		return failClosed(res, verif, tier, seed, start, findings, "load failed: "+err.Error())
 	}
 	fmt.Printf("[%s] loaded %d repository packages, %d repository functions (%d functions in total) in %.1fs\n",
 		prop, len(p.Pkgs), len(p.Funcs), len(p.AllFuncs), time.Since(start).Seconds())
 	ctx := rules.NewCtx(p, tier, res)
+	ctx.UseCHA(cha)
 	rule(ctx)
+	if variant {
+		// variant / witness run: print a machine-readable summary, write nothing
+		out := res.Summarise(findings)
+		fmt.Printf("WITNESS-RESULT status=ok violations=%d known=%d obligations=%d rules=%s keys=%s\n", len(out.Violations), len(out.Known), len(res.Obligations), strings.Join(out.Rules, ","), strings.Join(out.Keys, ";;"))
+		if len(out.Violations) > 0 {
+			return 1
+		}
+		return 0
+	}
 	extra := map[string]interface{}{
 		"packages_loaded":  len(p.Pkgs),
 		"repo_functions":   len(p.Funcs),
@@ -132,7 +158,9 @@ func run(prop, tier, repo, verif, tags string, seed int, rule rules.Rule) (code 
 		"go_files_checked": countFiles(p),
 	}
 	if tier == "thorough" {
-		for k, v := range rules.Thorough(ctx, prop, repo, verif) {
+		exe, _ := os.Executable()
+		th := rules.Thorough(ctx, prop, repo, verif, exe, res, findings)
+		for k, v := range th {
 			extra[k] = v
 		}
 	}
